@@ -82,8 +82,15 @@ def run(rep, prog, tier):
         seen_harm[hc.name] = wc.name
         rep.ob('R08.lookup', f'{wc.name}:wavetype', wt is not None and wt not in seen_wt, f"wavetype '{wt}'" + (f' also used by {seen_wt.get(wt)}' if wt in seen_wt else ''), site)
         if wt: seen_wt[wt] = wc.name
-        own = {n.name for n in hc.body if isinstance(n, ast.FunctionDef)}
-        rep.ob('R08.lookup', f'{hc.name}:overrides', {'_amplitude_coefficient', '_phase_coefficient'} <= own, f'defines {sorted(own)}', prog.site(hm, hc))
+        # the harmonic class has its own (non-abstract) amplitude and phase coefficients -- defined in its body, inherited from an intermediate
+        # base or bound by assignment, as long as the member that is found is not the abstract declaration
+        def concrete(name):
+            mem_ = prog.find_member(hm, hc, name)
+            if not mem_: return False
+            if isinstance(mem_[1], ast.FunctionDef): return not any('abstractmethod' in d_ for d_ in prog.decorators(mem_[1]))
+            return isinstance(mem_[1], (ast.Assign, ast.AnnAssign))
+        okc = concrete('_amplitude_coefficient') and concrete('_phase_coefficient')
+        rep.ob('R08.lookup', f'{hc.name}:overrides', okc, 'amplitude and phase coefficients are concrete members of the class', prog.site(hm, hc))
         if wt not in TIME:
             rep.ob('R08.pair', f'{wc.name}:row', None, f"no reference row for wavetype '{wt}'", site); continue
         # ---- time function
